@@ -208,6 +208,11 @@ impl Sys {
                 cm.update_repo(handle, contact, false, actor, krill)?;
                 Ok("ok".into())
             }
+            // only the first step of `ca`: create the CA aggregate
+            ["cainit", ca] => {
+                cm.init_ca(h(ca), rt)?;
+                Ok("ok".into())
+            }
             // register `child` under `parent` with the given entitlement and tell the child
             ["child", parent, child, atoms] => {
                 let ph = ParentHandle::from_str(parent).unwrap();
